@@ -67,6 +67,8 @@ type C20Case struct {
 	// an error and no matrix
 	Raw     gen.B `json:"raw,omitempty"`
 	WantErr bool  `json:"want_err,omitempty"`
+	// FirstCall: the named function is run as the first call into its package in a fresh process
+	FirstCall string `json:"first_call,omitempty"`
 }
 
 func validLabel(b byte) bool {
@@ -328,6 +330,11 @@ func labelKey(b byte) byte {
 }
 
 func checkC20(c C20Case, o *Obs) error {
+	if c.FirstCall != "" {
+		o.NT = true
+		o.Class("first call in a fresh process")
+		return runFirstCall(c.FirstCall)
+	}
 	switch c.Kind {
 	case "sym":
 		return checkSymmetrical(c, o)
@@ -720,6 +727,15 @@ func verifyGoString(m align.SubstitutionMatrix) error {
 }
 
 func exhaustiveC20(thorough bool, emit func(C20Case) bool) {
+	if !emit(C20Case{FirstCall: "Symmetrical"}) {
+		return
+	}
+	if !emit(C20Case{FirstCall: "GoString"}) {
+		return
+	}
+	if !emit(C20Case{FirstCall: "ReadNCBI"}) {
+		return
+	}
 	plain := &NcbiLayout{Seps: []string{" "}, Lead: []string{""}, Trail: []string{""}, Before: []int{0}, Formats: []string{"g"}}
 	base := C20Case{Kind: "ncbi", Rows: gen.B("AC*"), Cols: gen.B("ACG*"),
 		Scores: [][]gen.F{{1, -2, 0.5, -4}, {-2, 1, 0, -4}, {-4, -4, -4, 1}}, Layout: plain}
